@@ -6,3 +6,9 @@ add("C13", "model_checking",
     "Every pattern over {a,b,*} up to the length bound against every token over {a,b}, every range over a fixed end set with all bracket forms, and every sorted dictionary split into every block layout are executed on the real pattern.Search / token.Table.SelectEntries and compared with an independent glob and range evaluator. Within the bound this is a complete decision, which is the right level for a pure function whose bugs are boundary cases (prefix/suffix overlap, narrowing, 'one more block').",
     "Trusted: the 10-line recursive glob and the explicit range rules in refdb; Go's strconv for number values. Beyond the length bound nothing is claimed.",
     "DESIGN.md §3 C13", "E3-smallscope")
+
+add("C02", "model_checking",
+    "exhaustive small-scope enumeration (corpora x query trees x time ranges x order x limit) on real active and sealed fractions vs the refdb reference model; merge nodes enumerated over all sub-list pairs",
+    "Every corpus of up to 3 (thorough 4) documents over 7 token templates x 3 timestamps is ingested through the real write path into an active fraction and sealed; every query tree of <=2 leaves over 10 atoms with NOT at every position (plus 3-leaf trees), every [from,to] over a border grid, both orders, limits {0,1,2,n,n+1} and total on/off are rendered to SeqQL, parsed by the real parser, executed by the real engine and compared with refdb (ID sequence, total). The merge nodes are additionally enumerated over all pairs/triples of sorted sub-lists. The defects this property is about (off-by-one borders, dedup, NOT ranges, limit/order interplay) all have witnesses of this size.",
+    "Trusted: refdb. Quick thins two symmetric dimensions (RID direction, order for the logic queries) by alternation, stated in the evidence rule; thorough does the full cross product up to n=3.",
+    "DESIGN.md §3 C02", "E3-smallscope")
